@@ -17,9 +17,25 @@ func init() {
 	reg("R-RECOVER", "In the cone of Open: every insertion into the committed-id set is dominated by status == Committed of the same record; every call that hands a *Record to an index-mutating function is dominated by membership of that record's txID in DB.committedTxIds, or forwards the function's own parameter.", ruleRecover)
 	reg("R-CRC", "In each decoder every return of a possibly non-nil record is dominated by the equal edge of GetCrc(record) == record.crc.", ruleCRC)
 	reg("R-CODEC", "For each on-disk record type (data entry, sparse root index, bucket meta): encoder and decoder agree field by field on byte range and integer width, width = field type, header ranges tile [0,H), decoder header buffer = H, payload segments are contiguous from H in the same order with the same size fields on both sides, Size() = H + payload sizes, the checksum covers everything after the crc field and GetCrc feeds the payloads in stored order, every struct field is decoded.", ruleCodec)
+	reg("R-SCANEND", "Every loop that walks a segment with DataFile.ReadAt(off)/off += Size() leaves the loop, not the function with an error, on each end-of-data signal either RWManager can produce: nil entry (zero header), io.EOF, and offset reached Options.SegmentSize (MMap reports ErrIndexOutOfBound there).", ruleScanEnd)
+	reg("R-TORN", "In the recovery loops (cone of Open) ErrCrc from ReadAt cannot reach an error return: a torn tail ends the scan.", ruleTorn)
+	reg("R-OPEN-ORDER", "In Open the index-mode check has no file-system effect, its nil result dominates every file-creating/modifying effect except creating Options.Dir, and its error makes Open return an error.", ruleOpenOrder)
+	reg("R-MODE-TABLE", "The loop-free decision part of the mode check, evaluated over all 12 valuations of (EntryIdxMode in {0,1,2}, hasData, hasBptDir), equals refuse <=> hasData and (sparse xor hasBptDir); the two flags are set only under the .dat-suffix / bpt-directory tests.", ruleModeTable)
+	reg("R-CLOSED", "In the cone of the exported Tx methods every dereference of tx.db is dominated by a closed guard (tx.db != nil, or the nil-error edge of a guarantor call on the same tx), or the function is unexported and every call site passes an open transaction; tx.db is never dereferenced after being cleared.", ruleClosedGuard)
+	reg("R-DBCLOSED", "Exported DB methods dereference pointer-valued database state (index objects, ActiveFile) only behind the db.closed test or a successful Begin.", ruleDBClosedGuard)
+	reg("R-MAPOK", "Every use of DB.{BPTreeIdx,SetIdx,SortedSetIdx,ListIdx}[bucket] as a method receiver or struct base is preceded on all paths by the comma-ok test of the same map and key, by a store into that slot (ensure idiom), or by the nil-error edge of a guarantor call.", ruleMapOK)
 }
 
 var properties = []Property{
+	{ID: "C20", Rules: []string{"R-CLOSED", "R-DBCLOSED", "R-MAPOK"},
+		Explain: "Decides three panic classes for every path: nil dereference of tx.db on a finished transaction (all exported Tx methods and their cones), nil dereference of database state after Close in exported DB methods, and method calls on the nil index object of a missing bucket.",
+		NotCov:  "total panic freedom: integer overflow, slice bounds from API integers (LRange / LRem extremes), NaN scores, allocation size, B+ tree shape invariants behind unchecked type assertions."},
+	{ID: "C22", Rules: []string{"R-OPEN-ORDER", "R-MODE-TABLE"},
+		Explain: "Decides that Open runs the mode check before any file-creating or modifying effect other than creating the directory itself, that a refusal is returned, and that the check's decision — a boolean function of three atoms evaluated over all 12 rows from the SSA decision region — equals the specification and does not distinguish the two RAM modes.",
+		NotCov:  "that a crashed sparse directory still has its bpt directory; equality of contents after switching RAM modes (C19)."},
+	{ID: "C09", Rules: []string{"R-SCANEND", "R-TORN"},
+		Explain: "Decides, for every segment-scan loop, that each end-of-data signal (zero header, io.EOF, capacity reached) and a torn tail (ErrCrc) ends the scan instead of failing Open.",
+		NotCov:  "crash images of the sparse index files; enumeration of crash points."},
 	{ID: "C21", Rules: []string{"R-CODEC", "R-CRC", "R-PUT"},
 		Explain: "Decides layout symmetry of the three codecs from the constant-folded byte ranges in the SSA form (encoder PutUintN vs decoder UintN per field, widths, tiling, payload order and bounds, Size()), CRC coverage on both sides, that every non-nil decoder return is behind the CRC comparison, and that the size fields of a logged record are len() of its payloads.",
 		NotCov:  "detection strength of CRC32, behaviour when a corrupted size field makes an allocation fail, bit-flip enumeration."},
